@@ -102,3 +102,20 @@ mod standard;
 mod stats;
 mod summary;
 mod util;
+
+/// verif hook: direct access to the two private encoders of this crate, so
+/// that they can be exercised on values the public printers cannot reach
+/// (numbers near `u64::MAX`, arbitrary byte strings). Adds no behaviour.
+#[cfg(feature = "verif-hooks")]
+pub mod verif {
+    /// `DecimalFormatter::new(n).as_bytes()`
+    pub fn decimal(n: u64) -> Vec<u8> {
+        crate::util::DecimalFormatter::new(n).as_bytes().to_vec()
+    }
+
+    /// `base64_standard(bytes)`
+    #[cfg(feature = "serde")]
+    pub fn base64(bytes: &[u8]) -> String {
+        crate::jsont::verif_base64(bytes)
+    }
+}
